@@ -449,6 +449,7 @@ def run(ctx: Ctx) -> None:
 
 
 MUTANTS = [
+    ("update-all-variants-on-every-worker", IS, "            for vm_object in worker_vm_objects:\n                try:\n                    clean_graph.flag_children(\n                        flag_state,", "            for vm_object in vm_objects:\n                try:\n                    clean_graph.flag_children(\n                        flag_state,", "2w"),
     ("update-bridges-chain", IS, "    for node1 in graph.nodes:\n        for node2 in graph.nodes:\n            if node1 == node2:\n                continue\n            if node1.bridged_form == node2.bridged_form:\n                if node1.id == node2.id:\n                    raise ValueError\n                node1.bridge_with_node(node2)",
      "    for i, node1 in enumerate(graph.nodes):\n        for node2 in graph.nodes[i + 1 :]:\n            if node1.bridged_form == node2.bridged_form:\n                if node1.id == node2.id:\n                    raise ValueError\n                node1.bridge_with_node(node2)\n                break", "9u"),
     ("intersection-run-sets-clean", "cartgraph/graph.py", "            logging.debug(f\"The test {test_node} is assigned custom {activity} policy\")\n            if flag_type == \"run\":\n                test_node.should_run = flag.__get__(test_node)\n            else:\n                test_node.should_clean = flag.__get__(test_node)\n\n    \"\"\"parse and get",
